@@ -1,6 +1,6 @@
 (* Proofs about Model/ChunkMnemonic.v. *)
 From Coq Require Import NArith Arith List Lia Bool.
-From BU Require Import Base.Exn Base.Radix Base.Bytes Model.MnemWords Model.ChunkMnemonic Lemmas.MnemWords.
+From BU Require Import Base.Exn Base.Radix Base.Bytes Model.MnemWords Model.ChunkMnemonic Lemmas.MnemWords Gen.MnemConsts.
 Import ListNotations.
 Open Scope N_scope.
 
@@ -184,7 +184,7 @@ Proof.
   destruct (N.ltb_spec v chunk_limit) as [|_]; [lia|].
   assert (G : (4 < get_bytes_number v)%nat).
   { destruct (Nat.leb_spec (get_bytes_number v) 4) as [Q|Q]; [|assumption].
-    apply (gbn_le 4 v ltac:(lia)) in Q. unfold chunk_limit in L. simpl in Q. lia. }
+    apply (gbn_le 4 v ltac:(lia)) in Q. change chunk_limit with (256 ^ N.of_nat 4) in L. lia. }
   destruct (Nat.ltb_spec 3 (get_bytes_number v)) as [_|]; [|lia].
   exists (int_to_bytes_auto e v). rewrite int_to_bytes_auto_length.
   pose proof (int_to_bytes_auto_spec e v) as S. apply int_to_bytes_fixed_ok in S.
@@ -292,7 +292,7 @@ Section ChunkWords.
   Proof.
     unfold words_to_chunk. destruct (words_packed wl a b c) as [v|] eqn:P; simpl.
     - destruct (N.ltb_spec v chunk_limit) as [L|]; [|intros Q; inversion Q; reflexivity].
-      intros H. apply int_to_bytes_fixed_err in H. unfold chunk_limit in L. simpl in H. lia.
+      intros H. apply int_to_bytes_fixed_err in H. change chunk_limit with (256 ^ N.of_nat chunk_byte_len) in L. lia.
     - intros H; inversion H; subst. apply words_packed_err in P. tauto.
   Qed.
 
